@@ -134,7 +134,7 @@ func c03Scenario(s shape, faults []c03Fault, r *vx.Rand) {
 			return
 		}
 	}
-	recoverAndAudit(w, s.keys, r, r.Intn(6))
+	recoverAndAudit(w, s.keys, r, r.Intn(6), sr.a)
 }
 
 func runC03() {
